@@ -189,6 +189,9 @@ def child_download(c):
 
         def write(self, data):
             sample('write:before')
+            if c.get('io_delay'):
+                import time
+                time.sleep(c['io_delay'])        # liveness probe only: let the producer fill the queue
             j = self.n
             self.n += 1
             if self.wf is not None and self.wf[0] == j:
@@ -560,21 +563,44 @@ def check_c05(ctx):
     lines = [upload_model_line(c, o) if 'log' in o else 'up 0 1 1 1 . 0 1 1 1' for c, o in zip(cases, obs)]
     model = common.run_model('legacy', lines) if have_model else [None] * len(cases)
     found = 0
+    clean = []
     for c, o, l, m in zip(cases, obs, lines, model):
         r = upload_oracle(c, o)
         path = 'multipart' if c['size'] >= c['thr'] else 'put'
         ctx.count('legacy-upload', 1, nontrivial_key=json.dumps(c, sort_keys=True), path=path,
                   outcome=str(o.get('outcome')).split(':')[0], faults=len(c.get('faults') or []))
-        sig = 'legacy:c05:' + _sig_up(c)
         if r:
             found += 1
-            _report_case(ctx, sig, f'legacy upload_file {c}: {r}', c, 'c05')
-        elif m is not None and upload_canon(o) != m:
+            _report_case(ctx, 'legacy:c05:' + _sig_up(c), f'legacy upload_file {c}: {r}', c, 'c05')
+        else:
+            clean.append((c, o, m))
+    for c, o, m in clean:
+        if m is not None and upload_canon(o) != m:
             found += 1
             ctx.report('corr:legacy:upload:' + _sig_up(c),
                        f'legacy upload model and implementation disagree on {c}: impl={upload_canon(o)} model={m}',
                        {'kind': 'correspondence', 'theorem_or_correspondence': 'differential legacy/upload',
                         'oracle': 'c05', 'case': c, 'impl': upload_canon(o), 'model': m}, no_input=True)
+    # what each part read from the file (legacy ReadFileChunk): start/length from the model
+    if have_model:
+        ext = {}
+        for c, o in zip(cases, obs):
+            for r in o.get('log', []):
+                if r['op'] == 'part' and r.get('body_len') is not None:
+                    ext.setdefault((c['size'], c['chunk'], r['pn']), set()).add(r['body_len'])
+                if r['op'] == 'put' and r.get('body_len') is not None and r['body_len'] != c['size']:
+                    ctx.report(f'legacy:c05:put-body:{c["size"]}', f'put_object body of {r["body_len"]} bytes for a file of {c["size"]}',
+                               {'kind': 'input', 'component': 'legacy', 'oracle': 'c05', 'case': c})
+        keys = sorted(ext)
+        outs = common.run_model('legacy', [f'ext {hx(s)} {hx(ch)} {hx(pn)}' for s, ch, pn in keys])
+        for (s_, ch, pn), mo in zip(keys, outs):
+            ctx.count('legacy-part-extent', 1, nontrivial_key=(s_, ch, pn))
+            want = int(mo.split('/')[1], 16)
+            if ext[(s_, ch, pn)] != {want}:
+                ctx.report(f'corr:legacy:part-extent:{s_}:{ch}:{pn}',
+                           f'part {pn} of a {s_}-byte file (chunk {ch}) sent {sorted(ext[(s_, ch, pn)])} bytes, model {want}',
+                           {'kind': 'correspondence', 'theorem_or_correspondence': 'differential legacy/part-extent',
+                            'case': {'size': s_, 'chunk': ch, 'pn': pn}}, no_input=True)
     if cases:
         ctx.sample({'component': 'legacy-upload', 'case': cases[-1], 'model_cmd': lines[-1],
                     'impl': upload_canon(obs[-1]) if 'log' in obs[-1] else obs[-1], 'model': model[-1]})
@@ -942,14 +968,16 @@ def _check_downloads(ctx, prop, cases, oracle):
     model = common.run_model('legacy', lines) if have_model else [None] * len(cases)
     found = 0
     comp = 'legacy-download-' + prop
+    other = c02_oracle if oracle is c06_oracle else c06_oracle
+    clean = []
+    # pass 1: the properties themselves on what the implementation did
     for c, o, l, m in zip(cases, obs, lines, model):
         ranged = c['size'] >= c['thr']
-        ctx.count(comp, 1, nontrivial_key=l, path='ranged' if ranged else 'single',
+        ctx.count(comp, 1, nontrivial_key=json.dumps(c, sort_keys=True), path='ranged' if ranged else 'single',
                   outcome=str(o.get('outcome')).split(':')[0],
                   samples='>=10' if o.get('samples', 0) >= 10 else '<10')
         r = oracle(c, o)
-        # the other property's oracle too: a violation is a violation
-        r2 = (c02_oracle if oracle is c06_oracle else c06_oracle)(c, o)
+        r2 = other(c, o)          # the sibling property too: a violation is a violation
         if r:
             found += 1
             rule = 'rename-fault:temp-left' if (c.get('rename_fault') and 'left behind' in r) else _sig_dl(c)
@@ -958,7 +986,11 @@ def _check_downloads(ctx, prop, cases, oracle):
             found += 1
             _report_case(ctx, f'legacy:{prop}:other:{_sig_dl(c)}', f'legacy download_file {c}: {r2}', c,
                          'c02' if oracle is c06_oracle else 'c06')
-        elif m is not None:
+        else:
+            clean.append((c, o, m))
+    # pass 2: the correspondence with the model, where the properties hold
+    for c, o, m in clean:
+        if m is not None:
             diffs = download_compare(c, o, m)
             if diffs:
                 found += 1
@@ -977,6 +1009,8 @@ def _check_downloads(ctx, prop, cases, oracle):
 def check_c06(ctx):
     """C06 for legacy download_file (single and ranged).  Reports through ctx.report."""
     _check_downloads(ctx, 'c06', c06_cases(ctx), c06_oracle)
+    if not os.environ.get('VERIF_LEGACY_NO_PROBE'):
+        liveness_probe(ctx, timeout=4)       # a note in the evidence, never a violation
 
 
 def check_c02(ctx):
@@ -991,7 +1025,7 @@ def liveness_probe(ctx=None, timeout=5):
     queue is full.  Not part of C02/C05/C06: recorded as a note, never reported."""
     probes = [
         ('io-write-fault-queue-full',
-         dict(kind='dl', size=12, thr=1, chunk=4, max=1, conc=1, old=True, max_io_queue=1, io_fail=0,
+         dict(kind='dl', size=12, thr=1, chunk=4, max=1, conc=1, old=True, max_io_queue=1, io_fail=0, io_delay=0.3,
               ranged=[[{'reads': [1] * 8}] for _ in range(3)])),
         ('io-open-fault-more-chunks-than-queue',
          dict(kind='dl', size=12, thr=1, chunk=4, max=1, conc=1, old=True, max_io_queue=2, io_open_fault=True,
